@@ -3,6 +3,7 @@
 #include "path_oracle.hpp"
 #include "guard.hpp"
 #include "asanhook.hpp"
+#include "notime.hpp"
 
 using namespace vw;
 
@@ -168,6 +169,7 @@ int main(int argc, char **argv)
             for (;;)
             {
                 vg::Group G;
+                G.onChildStart = [] { vf::virtualSleep() = true; };
                 auto body = [&](vf::Report &r) {
                     auto run = [&](const std::map<size_t, int> &dev) -> std::vector<vc::Point> {
                         Exec e{cfg, dev};
@@ -237,7 +239,14 @@ int main(int argc, char **argv)
                     break;
                 // the child died: re-run the announced execution alone, with a longer limit, before calling it a finding
                 std::string cur = out.current;
+                if (cur.empty())
+                {
+                    rep.exhaustive = false;
+                    rep.caps.push_back("child died before announcing an execution in " + planner + " / " + cfg.map);
+                    break;
+                }
                 vg::Group G2;
+                G2.onChildStart = [] { vf::virtualSleep() = true; };
                 vf::Report scratch;
                 vg::Outcome single = G2.run(
                     [&](vf::Report &r) {
@@ -285,6 +294,7 @@ int main(int argc, char **argv)
         for (auto &d : v["dev"].a)
             e.dev[(size_t)d[0].i()] = (int)d[1].i();
         bool failed = false;
+        vf::virtualSleep() = true;
         // a crash or hang here fails the replay through the exit status of this process
         alarm(60);
         long a0 = vf::asanErrorCount();
